@@ -1,6 +1,6 @@
 (* Properties/C12.v — C12: schema operations are pure (deterministic under map order, argument-
    preserving, history-free).  ONLY statements; proofs in Proofs/C12{Order,Lookup,Schema,Schema2,Value,Value2,History,Main}.v
-   and Proofs/C12Result{Base,Unser,Ser,Main}.v.
+   and Proofs/C12Result{Base,Unser,Ser,Wf,Main}.v.
 
    FULL STATEMENTS (kept visible; what is proved below is marked):
 
@@ -29,9 +29,8 @@
      under units accepted by Ub (Ub := any_units quantifies over every units definition, Ub := no_units is the
      schema without units on map keys); `defaults_distinct Ub`: the same for the decoded property defaults.
      The results are related by perm_val (equal up to the order of map entries at any depth).  Well-formedness is
-     needed on the first description only for the results (C12_unserialize_results_order_free,
-     C12_serialize_results_order_free); the verdict half still uses it on both (NOT PROVED: that perm_schema
-     preserves wf_schema).
+     needed on the first description only: perm_env / perm_schema preserve wf_schema (C12_wf_order_free), so
+     C12_order_independent and C12_order_independent_verdict assume `wf_schema e s` alone.
 
    C12_history_free :
      for the state-passing variant with ALL lazily filled caches explicit (decoded defaults per object,
@@ -48,7 +47,7 @@ From Verif Require Import Base.Prelude Base.Str Base.Float Base.GoVal
   Schema.Regex Schema.Units Schema.Syntax Schema.Ops Schema.Wf Schema.Perm
   Proofs.C12Order Proofs.C12Lookup Proofs.C12Schema Proofs.C12Schema2 Proofs.C12Value Proofs.C12Value2
   Proofs.C12History Proofs.C12Main
-  Proofs.C12ResultBase Proofs.C12ResultUnser Proofs.C12ResultSer Proofs.C12ResultMain.
+  Proofs.C12ResultBase Proofs.C12ResultUnser Proofs.C12ResultSer Proofs.C12ResultWf Proofs.C12ResultMain.
 Open Scope string_scope.
 
 Section C12.
@@ -145,10 +144,25 @@ Theorem C12_serialize_results_order_free : forall (Ub : option units -> bool) f 
   serialize words pu f e s v = Ok r -> serialize words pu f e' s' v' = Ok r' -> perm_val r r'.
 Proof. exact (c12_ser_result words pu). Qed.
 
+(* well-formedness is a property of the schema up to the order of its association lists *)
+Theorem C12_wf_order_free : forall e e' s s',
+  perm_env e e' -> nodup_env e = true -> perm_schema s s' -> wf_schema e s = true -> wf_schema e' s' = true.
+Proof. exact perm_wf_schema. Qed.
+
+(* ... so the verdict half needs the hypothesis on one description only *)
+Theorem C12_order_independent_verdict : forall f e e' s s' v v',
+  perm_env e e' -> nodup_env e = true -> perm_schema s s' -> perm_val v v' ->
+  wf_schema e s = true -> no_key_collision v = true ->
+  is_ok (unser words pu f e s v) = is_ok (unser words pu f e' s' v') /\
+  is_ok (validate words pu f e s v) = is_ok (validate words pu f e' s' v') /\
+  is_ok (serialize words pu f e s v) = is_ok (serialize words pu f e' s' v') /\
+  is_ok (compat words pu f e s v) = is_ok (compat words pu f e' s' v').
+Proof. exact (c12_order_verdict_one_side words pu). Qed.
+
 (* verdict AND results, every operation, both sides at once *)
 Theorem C12_order_independent : forall (Ub : option units -> bool) f e e' s s' v v',
   perm_env e e' -> nodup_env e = true -> perm_schema s s' -> perm_val v v' ->
-  wf_schema e s = true -> wf_schema e' s' = true -> no_key_collision v = true ->
+  wf_schema e s = true -> no_key_collision v = true ->
   map_key_units Ub e s = true -> defaults_distinct Ub (e_or e) -> keys_distinct Ub v ->
   (is_ok (unser words pu f e s v) = is_ok (unser words pu f e' s' v') /\
    is_ok (validate words pu f e s v) = is_ok (validate words pu f e' s' v') /\
@@ -211,6 +225,8 @@ Print Assumptions C12_value_order_all_operations.
 Print Assumptions C12_order_independent_verdict_partial.
 Print Assumptions C12_unserialize_results_order_free.
 Print Assumptions C12_serialize_results_order_free.
+Print Assumptions C12_wf_order_free.
+Print Assumptions C12_order_independent_verdict.
 Print Assumptions C12_order_independent.
 Print Assumptions C12_result_refuted.
 Print Assumptions C12_collision_refuted.
